@@ -404,7 +404,7 @@ MBody(ms, self, body, g, operOf, i, root) ==
                     THEN [r.ms EXCEPT !.s.storage[self] = [@ EXCEPT !["s" \o ToString(o.id)] = IF r.ok THEN 2 ELSE 1]] ELSE r.ms
          IN IF o.op \in {"revert", "invalid"} THEN [ms |-> ms, ok |-> FALSE]
             ELSE IF o.op = "selfdestruct" THEN r
-            ELSE IF ~r.ok /\ o.op \in {"pc", "call", "recall"} /\ o.mode = "bubble" /\ self # g THEN [ms |-> ms, ok |-> FALSE]
+            ELSE IF ~r.ok /\ o.op \in {"pc", "call", "recall"} /\ o.mode = "bubble" /\ self # g THEN [ms |-> r.ms, ok |-> FALSE]
             ELSE MBody(rec, self, body, g, operOf, i + 1, root)
 
 \* final commit: dirty accounts are written; self-destructed ones are deleted (their bank balance,
